@@ -779,7 +779,7 @@ impl<'a> Gen<'a> {
         let mut scopes = vec![types];
         scopes.extend_from_slice(outer);
         let where_ = if self.r.chance(2, 3) { Some(self.expr(Ty::Bool, &scopes, d.min(1))) } else { None };
-        if allow_group && self.cfg.grouping && self.r.chance(1, 4) {
+        if allow_group && self.cfg.grouping && self.r.chance(1, 3) {
             // SELECT key, agg ... GROUP BY key  shaped to the wanted types
             let key_ty = tys[0];
             let key = self.expr(key_ty, &scopes, 0);
@@ -787,7 +787,9 @@ impl<'a> Gen<'a> {
             let mut proj = vec![Expr::Col(0, 0)];
             for (i, t) in tys.iter().enumerate().skip(1) {
                 let (f, a) = match t {
-                    Ty::Int => (*self.r.pick(&[AggFn::Count, AggFn::Sum, AggFn::Min, AggFn::Max]), self.expr(Ty::Int, &scopes, 0)),
+                    // COUNT(*) too: the same aggregate text inside a derived table and in the query around it
+                    // is what a shared aggregate cache would confuse
+                    Ty::Int => (*self.r.pick(&[AggFn::CountStar, AggFn::CountStar, AggFn::Count, AggFn::Sum, AggFn::Min, AggFn::Max]), self.expr(Ty::Int, &scopes, 0)),
                     _ => (*self.r.pick(&[AggFn::Min, AggFn::Max]), self.expr(Ty::Str, &scopes, 0)),
                 };
                 aggs.push((f, false, a));
@@ -808,6 +810,31 @@ impl<'a> Gen<'a> {
             let rq = self.sub_select(tys.clone(), &[], depth - 1, false);
             let op = *self.r.pick(&[SetOp::Union, SetOp::Intersect, SetOp::Except]);
             return (Query::SetOp(op, self.r.chance(1, 2), Box::new(l), Box::new(rq)), tys);
+        }
+        // an aggregate over an aggregating derived table, with the same aggregate function inside and outside
+        // (one query in sixteen): SELECT [c1,] AGG FROM (SELECT key, AGG ... GROUP BY key) d [GROUP BY c1]
+        if self.cfg.grouping && self.cfg.subqueries && depth > 0 && self.r.chance(1, 16) {
+            let (base, btys) = self.base_table();
+            let bscope = vec![btys.clone()];
+            let ints: Vec<usize> = (0..btys.len()).filter(|i| btys[*i] == Ty::Int).collect();
+            if !ints.is_empty() {
+                let key = Expr::Col(0, self.r.below(btys.len() as u64) as usize);
+                let kt = match &key { Expr::Col(_, i) => btys[*i], _ => Ty::Int };
+                let f = *self.r.pick(&[AggFn::CountStar, AggFn::CountStar, AggFn::Sum, AggFn::Count, AggFn::Min, AggFn::Max]);
+                let arg_in = if f == AggFn::CountStar { Expr::Const(Val::Int(1)) } else { Expr::Col(0, *self.r.pick(&ints)) };
+                let w = if self.r.chance(1, 2) { Some(self.expr(Ty::Bool, &bscope, 1)) } else { None };
+                let inner = Query::Select(Select { distinct: false, from: vec![base], where_: w, grouping: Some((vec![key], vec![(f, false, arg_in)])), having: None, proj: vec![Expr::Col(0, 0), Expr::Col(0, 1)], order: vec![], limit: None, offset: None });
+                let arg_out = if f == AggFn::CountStar { Expr::Const(Val::Int(1)) } else { Expr::Col(0, 1) };
+                let by_value = self.r.chance(1, 2);
+                let (keys, proj, tys) = if by_value {
+                    (vec![Expr::Col(0, 1)], vec![Expr::Col(0, 0), Expr::Col(0, 1)], vec![Ty::Int, Ty::Int])
+                } else {
+                    (vec![], vec![Expr::Col(0, 0)], vec![Ty::Int])
+                };
+                let _ = kt;
+                let outer = Select { distinct: false, from: vec![From::Sub(Box::new(inner), 2)], where_: None, grouping: Some((keys, vec![(f, false, arg_out)])), having: None, proj, order: vec![], limit: None, offset: None };
+                return (Query::Select(outer), tys);
+            }
         }
         let maxf = self.cfg.max_from;
         let (from, types) = self.from_list(&[], depth, maxf);
